@@ -6,64 +6,933 @@ import Wbxml.Lemmas.AllocCore
 namespace Wbxml.Model.Alloc
 open Wbxml
 set_option linter.unusedSimpArgs false
+set_option linter.unusedVariables false
 
-/-- The run ends without fault and its result and final ledger satisfy `Q`. -/
-def Good (p : Prog α) (s : Ledger) (Q : α → Ledger → Prop) : Prop :=
-  match run p s with
-  | (.ok a, s') => Q a s'
-  | (.error _, _) => False
+/-! ### Buffers -/
 
-theorem Good.bind {p : Prog α} {f : α → Prog β} {s : Ledger} {Q : α → Ledger → Prop} {R : β → Ledger → Prop}
-    (hp : Good p s Q) (hf : ∀ a s', Q a s' → Good (f a) s' R) : Good (Prog.bind p f) s R := by
-  unfold Good at hp ⊢
-  rw [run_bind]
-  split at hp
-  · next a s' h => simp only [h]; exact hf a s' hp
-  · exact hp.elim
-
-theorem Good.mono {p : Prog α} {s : Ledger} {Q Q' : α → Ledger → Prop}
-    (hp : Good p s Q) (h : ∀ a s', Q a s' → Q' a s') : Good p s Q' := by
-  unfold Good at hp ⊢
-  generalize run p s = r at hp ⊢
-  match r, hp with
-  | (.ok a, s'), hp => exact h a s' hp
-  | (.error _, _), hp => exact hp.elim
-
-/-- `i` is live after the run iff it was live before and not consumed, or was produced. -/
-def LiveEq (s s' : Ledger) (consumed produced : List Nat) : Prop :=
-  ∀ i, i ∈ s'.live ↔ (i ∈ s.live ∧ i ∉ consumed) ∨ i ∈ produced
-
-/-- The ids were handed out during the run. -/
-def Fresh (s s' : Ledger) (ids : List Nat) : Prop := ∀ i ∈ ids, s.next < i ∧ i ≤ s'.next
-
-/-- The ids are live and pairwise distinct: the caller owns these blocks. -/
-def Owns (s : Ledger) (ids : List Nat) : Prop := ids.Nodup ∧ ∀ i ∈ ids, i ∈ s.live
+/-- Representation invariant of a dynamic buffer: no block, no capacity. (`grow_buff` before its
+    repair broke it: `malloced` raised, `data` NULL.) -/
+def ABuf.ok (b : ABuf) : Prop := b.isStatic = false → b.dataId = none → b.malloced = 0
 
 theorem bufCreate_spec (src : Option Bytes) (blk : Nat) (s : Ledger) (wf : s.WF) :
     Good (bufCreate src blk) s (fun r s' =>
-      LiveEq s s' [] (ownedBufOpt r) ∧ Fresh s s' (ownedBufOpt r) ∧ (ownedBufOpt r).Nodup ∧
-      (s.hits < s'.hits → r = none)) := by
-  unfold bufCreate Good
-  simp only [malloc, free, bind_eq, pure_eq, Prog.bind, run]
-  by_cases h1 : s.fails (s.next + 1) = true
-  · simp [h1, run, LiveEq, Fresh, ownedBufOpt]
-  · simp only [h1]
+      Clean s s' [] (ownedBufOpt r) ∧ (s.hits < s'.hits → r = none) ∧ (∀ b, r = some b → b.isStatic = false) ∧
+      (∀ b, r = some b → b.ok)) := by
+  unfold bufCreate
+  simp only [bind_eq, pure_eq]
+  refine Good.bind (malloc_spec s wf) ?_
+  intro h s1 ⟨c1, h1⟩
+  cases h with
+  | none =>
+    simp only [good_ret, ownedBufOpt]
+    exact ⟨c1, by simp, by simp, by simp⟩
+  | some h =>
+    have hdone : Good (Prog.ret (some (⟨h, none, [], 0, false⟩ : ABuf))) s1 (fun r s' =>
+        Clean s s' [] (ownedBufOpt r) ∧ (s.hits < s'.hits → r = none) ∧ (∀ b, r = some b → b.isStatic = false) ∧
+        (∀ b, r = some b → b.ok)) := by
+      simp only [good_ret, ownedBufOpt, ABuf.owned]
+      refine ⟨by simpa using c1, ?_, by simp, by simp [ABuf.ok]⟩
+      intro hh; have := h1 hh; simp at this
     cases src with
-    | none =>
-      simp [run, LiveEq, Fresh, ownedBufOpt, ABuf.owned]
+    | none => exact hdone
     | some d =>
+      simp only
       by_cases hd : d.length = 0
-      · simp [hd, run, LiveEq, Fresh, ownedBufOpt, ABuf.owned]
-      · simp only [hd, if_false, Prog.bind, run]
-        by_cases h2 : Ledger.fails { s with next := s.next + 1, live := s.live ++ [s.next + 1] } (s.next + 1 + 1) = true
-        · simp only [h2, if_true, Prog.bind, run]
-          have : s.next + 1 ∈ s.live ++ [s.next + 1] := by simp
-          simp [this, run, Ledger.release, LiveEq, Fresh, ownedBufOpt]
+      · simp only [hd, if_true]; exact hdone
+      · simp only [hd, if_false]
+        refine Good.bind (malloc_spec s1 c1.wf) ?_
+        intro p s2 ⟨c2, h2⟩
+        cases p with
+        | none =>
+          simp only
+          refine Good.bind (free_spec (some h) s2 c2.wf ?_) ?_
+          · intro a ha; cases ha
+            have := (c2.live h).2 (Or.inl ⟨(c1.live h).2 (Or.inr (by simp)), by simp⟩); exact this
+          · intro _ s3 ⟨c3, h3, h3'⟩
+            simp only [good_ret, ownedBufOpt]
+            have l1 := c1.live; have l2 := c2.live; have l3 := c3.live
+            have f1 := c1.fresh; have := c1.next; have := c2.next; have := c2.hits; have := c1.hits
+            refine ⟨⟨?_, by simp, by simp, by rw [c3.sched, c2.sched, c1.sched], by omega, by omega, c3.wf⟩, by simp, by simp, by simp⟩
+            intro i
+            have := wf i
+            simp only [Option.toList] at *
+            grind
+        | some p =>
+          simp only [good_ret, ownedBufOpt, ABuf.owned]
+          have l1 := c1.live; have l2 := c2.live
+          have f1 := c1.fresh; have f2 := c2.fresh; have := c1.next; have := c2.next; have := c2.hits; have := c1.hits
+          simp only [Option.toList] at *
+          refine ⟨⟨?_, ?_, ?_, by rw [c2.sched, c1.sched], by omega, by omega, c2.wf⟩, ?_, by simp, by simp [ABuf.ok]⟩
+          · intro i; grind
+          · intro i hi; grind
+          · grind
+          · intro hh
+            have a1 := h1; have a2 := h2
+            simp at a1 a2; omega
+
+theorem bufStaCreate_spec (d : Bytes) (s : Ledger) (wf : s.WF) :
+    Good (bufStaCreate d) s (fun r s' =>
+      Clean s s' [] (ownedBufOpt r) ∧ (s.hits < s'.hits → r = none) ∧ (∀ b, r = some b → b.isStatic = true)) := by
+  unfold bufStaCreate
+  simp only [bind_eq, pure_eq]
+  refine Good.bind (malloc_spec s wf) ?_
+  intro h s1 ⟨c1, h1⟩
+  cases h with
+  | none => simp only [good_ret, ownedBufOpt]; exact ⟨c1, by simp, by simp⟩
+  | some h =>
+    simp only [good_ret, ownedBufOpt, ABuf.owned]
+    refine ⟨by simpa using c1, ?_, by simp⟩
+    intro hh; have := h1 hh; simp at this
+
+theorem bufDestroy_spec (b : Option ABuf) (s : Ledger) (wf : s.WF) (own : Owns s (ownedBufOpt b)) :
+    Good (bufDestroy b) s (fun _ s' => Clean s s' (ownedBufOpt b) [] ∧ s'.hits = s.hits ∧ s'.next = s.next) := by
+  cases b with
+  | none => simp only [bufDestroy, pure_eq, good_ret, ownedBufOpt]; exact ⟨Clean.rfl wf, by simp, by simp⟩
+  | some b =>
+    obtain ⟨nd, lv⟩ := own
+    simp only [ownedBufOpt, ABuf.owned] at nd lv ⊢
+    unfold bufDestroy
+    simp only [bind_eq, pure_eq]
+    refine Good.bind (deref_spec b.hdr s (lv _ (by simp))) ?_
+    intro _ s0 e0; subst e0
+    cases hst : b.isStatic with
+    | true =>
+      simp only [hst, Bool.not_true, Bool.false_eq_true, if_false, Prog.bind] at nd lv ⊢
+      refine Good.bind (free_spec (some b.hdr) s0 wf ?_) ?_
+      · intro a ha; cases ha; exact lv _ (by simp)
+      · intro _ s1 ⟨c1, h1, n1⟩
+        simp only [good_ret]
+        exact ⟨by simpa using c1, h1, n1⟩
+    | false =>
+      simp only [hst, Bool.not_false, if_true, Bool.false_eq_true, if_false] at nd lv ⊢
+      refine Good.bind (free_spec b.dataId s0 wf ?_) ?_
+      · intro a ha; exact lv a (by simp [ha])
+      · intro _ s1 ⟨c1, h1, n1⟩
+        refine Good.bind (free_spec (some b.hdr) s1 c1.wf ?_) ?_
+        · intro a ha; cases ha
+          refine (c1.live b.hdr).2 (Or.inl ⟨lv _ (by simp), ?_⟩)
+          intro hm; simp only [List.nodup_cons] at nd; exact nd.1 hm
+        · intro _ s2 ⟨c2, h2, n2⟩
+          simp only [good_ret]
+          expose c1; expose c2
+          refine ⟨⟨?_, by simp, by simp, by simp_all, by omega, by omega, c2.wf⟩, by omega, by omega⟩
+          intro i
+          simp only [Option.toList] at *
+          grind
+
+/-- The common shape of the buffer mutators: the buffer object is the same struct, `data` may have
+    moved to a fresh block; a delivered failure is reported as FALSE. -/
+def BufStep (b : ABuf) (s : Ledger) (r : ABuf × Bool) (s' : Ledger) : Prop :=
+  r.1.hdr = b.hdr ∧ r.1.isStatic = b.isStatic ∧ Clean s s' b.owned r.1.owned ∧ (s.hits < s'.hits → r.2 = false) ∧
+  (b.ok → r.1.ok)
+
+theorem BufStep.same {b : ABuf} {s : Ledger} (wf : s.WF) (own : Owns s b.owned) (ok : Bool) : BufStep b s (b, ok) s := by
+  refine ⟨rfl, rfl, ⟨?_, ?_, own.1, rfl, Nat.le_refl _, Nat.le_refl _, wf⟩, by omega, id⟩
+  · intro i; have := own.2 i; grind
+  · intro i hi; exact Or.inl hi
+
+theorem growBuff_spec (b : ABuf) (size : Nat) (s : Ledger) (wf : s.WF) (own : Owns s b.owned) :
+    Good (growBuff b size) s (fun r s' => BufStep b s r s' ∧ (b.ok → r.2 = true → b.isStatic = false → r.1.dataId.isSome)) := by
+  unfold growBuff
+  simp only [bind_eq, pure_eq]
+  have hlive : b.hdr ∈ s.live := own.2 _ (by simp [ABuf.owned])
+  refine Good.bind (deref_spec b.hdr s hlive) ?_
+  intro _ s0 e0; subst e0
+  cases hst : b.isStatic with
+  | true => simp only [if_true, good_ret]; exact ⟨BufStep.same wf own false, by simp⟩
+  | false =>
+    simp only [Bool.false_eq_true, if_false]
+    split
+    · refine Good.bind (realloc_spec b.dataId s0 wf ?_) ?_
+      · intro a ha; exact own.2 a (by simp [ABuf.owned, hst, ha])
+      · intro q s1 ⟨c1, h1, _⟩
+        cases q with
+        | none =>
+          simp only [good_ret]
+          obtain ⟨nd, lv⟩ := own
+          expose c1
+          refine ⟨⟨rfl, rfl, ⟨?_, ?_, nd, by simp_all, by omega, by omega, c1.wf⟩, by simp, id⟩, by simp⟩
+          · intro i; have := lv i; simp only [Option.isSome_none, Bool.false_eq_true, if_false, Option.toList] at *; grind
+          · intro i hi; exact Or.inl hi
+        | some q =>
+          simp only [good_ret]
+          obtain ⟨nd, lv⟩ := own
+          expose c1
+          have hq := h1
+          simp only [ABuf.owned, hst, Bool.false_eq_true, if_false] at nd lv
+          simp only [Option.isSome_some, if_true] at *
+          have hb := wf b.hdr hlive
+          refine ⟨⟨rfl, by simp [hst], ⟨?_, ?_, ?_, by simp_all, by omega, by omega, c1.wf⟩, ?_, by simp [ABuf.ok]⟩, by simp⟩
+          · intro i
+            have := lv i; have := wf i
+            simp only [ABuf.owned, hst, Bool.false_eq_true, if_false]
+            cases hd : b.dataId <;> simp only [hd, Option.toList] at * <;> grind
+          · intro i hi
+            simp only [ABuf.owned, hst, Bool.false_eq_true, if_false, Option.toList] at hi ⊢
+            cases hd : b.dataId <;> simp only [hd, Option.toList] at * <;> grind
+          · simp only [ABuf.owned, hst, Bool.false_eq_true, if_false, Option.toList]
+            cases hd : b.dataId <;> simp only [hd, Option.toList] at * <;> grind
+          · intro hh; have := hq hh; simp at this
+    · next hroom =>
+      simp only [good_ret]
+      refine ⟨BufStep.same wf own true, ?_⟩
+      intro hok _ _
+      cases hd : b.dataId with
+      | some q => simp
+      | none =>
+        have := hok hst hd
+        simp only [ABuf.len] at hroom
+        omega
+
+theorem insertData_spec (b : ABuf) (pos : Nat) (d : Bytes) (s : Ledger) (wf : s.WF) (own : Owns s b.owned) (hok : b.ok) :
+    Good (insertData b pos d) s (BufStep b s) := by
+  unfold insertData
+  simp only [bind_eq, pure_eq]
+  have hlive : b.hdr ∈ s.live := own.2 _ (by simp [ABuf.owned])
+  refine Good.bind (deref_spec b.hdr s hlive) ?_
+  intro _ s0 e0; subst e0
+  split
+  · simp only [good_ret]; exact BufStep.same wf own false
+  · next hcond =>
+    refine Good.bind (growBuff_spec b d.length s0 wf own) ?_
+    intro r s1 hr
+    obtain ⟨b1, grown⟩ := r
+    obtain ⟨⟨e1, e2, c1, h1, k1⟩, hsome⟩ := hr
+    simp only at e1 e2 c1 h1 k1 hsome ⊢
+    cases grown with
+    | false => simp only [Bool.not_false, if_true, good_ret]; exact ⟨e1, e2, c1, h1, k1⟩
+    | true =>
+      simp only [Bool.not_true, Bool.false_eq_true, if_false]
+      have hns : b.isStatic = false := by
+        cases hb : b.isStatic <;> simp_all
+      have hq := hsome hok rfl hns
+      cases hd : b1.dataId with
+      | none => simp [hd] at hq
+      | some q =>
+        have hql : q ∈ s1.live := by
+          refine (c1.live q).2 (Or.inr ?_)
+          simp [ABuf.owned, e2, hns, hd]
+        refine Good.bind (deref_spec q s1 hql) ?_
+        intro _ s2 e2'; subst e2'
+        simp only [good_ret]
+        refine ⟨e1, e2, ?_, h1, ?_⟩
+        · simpa [ABuf.owned, hd] using c1
+        · intro hb; have := k1 hb; simpa [ABuf.ok] using this
+
+theorem bufAppendData_spec (b : ABuf) (d : Option Bytes) (s : Ledger) (wf : s.WF) (own : Owns s b.owned) (hok : b.ok) :
+    Good (bufAppendData b d) s (BufStep b s) := by
+  unfold bufAppendData
+  simp only [bind_eq, pure_eq]
+  have hlive : b.hdr ∈ s.live := own.2 _ (by simp [ABuf.owned])
+  refine Good.bind (deref_spec b.hdr s hlive) ?_
+  intro _ s0 e0; subst e0
+  split
+  · simp only [good_ret]; exact BufStep.same wf own false
+  · cases d with
+    | none => simp only [good_ret]; exact BufStep.same wf own true
+    | some d =>
+      simp only
+      split
+      · simp only [good_ret]; exact BufStep.same wf own true
+      · exact insertData_spec b b.len d s0 wf own hok
+
+theorem bufAppendChar_spec (b : ABuf) (ch : UInt8) (s : Ledger) (wf : s.WF) (own : Owns s b.owned) (hok : b.ok) :
+    Good (bufAppendChar b ch) s (BufStep b s) := by
+  unfold bufAppendChar
+  simp only [bind_eq, pure_eq]
+  have hlive : b.hdr ∈ s.live := own.2 _ (by simp [ABuf.owned])
+  refine Good.bind (deref_spec b.hdr s hlive) ?_
+  intro _ s0 e0; subst e0
+  split
+  · simp only [good_ret]; exact BufStep.same wf own false
+  · exact insertData_spec b b.len [ch] s0 wf own hok
+
+theorem bufInsertCstr_spec (b : ABuf) (str : Bytes) (pos : Nat) (s : Ledger) (wf : s.WF) (own : Owns s b.owned) (hok : b.ok) :
+    Good (bufInsertCstr b str pos) s (BufStep b s) := by
+  unfold bufInsertCstr
+  simp only [bind_eq, pure_eq]
+  have hlive : b.hdr ∈ s.live := own.2 _ (by simp [ABuf.owned])
+  refine Good.bind (deref_spec b.hdr s hlive) ?_
+  intro _ s0 e0; subst e0
+  split
+  · simp only [good_ret]; exact BufStep.same wf own false
+  · exact insertData_spec b pos str s0 wf own hok
+
+theorem bufCstr_spec (b : ABuf) (s : Ledger) (hlive : b.hdr ∈ s.live) :
+    Good (bufCstr b) s (fun _ s' => s' = s) := by
+  unfold bufCstr
+  simp only [bind_eq, pure_eq]
+  refine Good.bind (deref_spec b.hdr s hlive) ?_
+  intro _ s0 e0; subst e0
+  split
+  · simp [good_ret]
+  · split
+    · simp [good_ret]
+    · split <;> simp [good_ret]
+
+theorem bufAppend_spec (dest : ABuf) (src : Option ABuf) (s : Ledger) (wf : s.WF) (own : Owns s dest.owned) (hok : dest.ok)
+    (hsrc : ∀ x, src = some x → x.hdr ∈ s.live) :
+    Good (bufAppend dest src) s (BufStep dest s) := by
+  unfold bufAppend
+  simp only [bind_eq, pure_eq]
+  have hlive : dest.hdr ∈ s.live := own.2 _ (by simp [ABuf.owned])
+  refine Good.bind (deref_spec dest.hdr s hlive) ?_
+  intro _ s0 e0; subst e0
+  split
+  · simp only [good_ret]; exact BufStep.same wf own false
+  · cases src with
+    | none => simp only [good_ret]; exact BufStep.same wf own true
+    | some x =>
+      simp only
+      refine Good.bind (bufCstr_spec x s0 (hsrc x rfl)) ?_
+      intro d s1 e1; subst e1
+      exact bufAppendData_spec dest d s1 wf own hok
+
+theorem bufDuplicate_spec (b : Option ABuf) (s : Ledger) (wf : s.WF) (hb : ∀ x, b = some x → x.hdr ∈ s.live) :
+    Good (bufDuplicate b) s (fun r s' =>
+      Clean s s' [] (ownedBufOpt r) ∧ (s.hits < s'.hits → r = none) ∧ (∀ x, r = some x → x.isStatic = false ∧ x.ok) ∧
+      (b = none → r = none ∧ s'.hits = s.hits)) := by
+  cases b with
+  | none =>
+    simp only [bufDuplicate, pure_eq, good_ret, ownedBufOpt]
+    exact ⟨Clean.rfl wf, by simp, by simp, by simp⟩
+  | some x =>
+    unfold bufDuplicate
+    simp only [bind_eq]
+    refine Good.bind (bufCstr_spec x s (hb x rfl)) ?_
+    intro d s1 e1; subst e1
+    refine (bufCreate_spec d x.len s1 wf).mono ?_
+    intro r s' ⟨c, h, hs, hk⟩
+    exact ⟨c, h, fun y hy => ⟨hs y hy, hk y hy⟩, by simp⟩
+
+/-! ### Lists -/
+
+theorem listCreate_spec {ι : Type} (s : Ledger) (wf : s.WF) :
+    Good (listCreate (ι := ι)) s (fun r s' =>
+      Clean s s' [] (match r with | none => [] | some l => [l.hdr]) ∧ (s.hits < s'.hits → r = none) ∧
+      (∀ l, r = some l → l.cells = [])) := by
+  unfold listCreate
+  simp only [bind_eq, pure_eq]
+  refine Good.bind (malloc_spec s wf) ?_
+  intro h s1 ⟨c1, h1⟩
+  cases h with
+  | none => simp only [good_ret]; exact ⟨c1, by simp, by simp⟩
+  | some h =>
+    simp only [good_ret]
+    refine ⟨by simpa using c1, ?_, by simp⟩
+    intro hh; have := h1 hh; simp at this
+
+/-- `listAppend` / `listInsert`: the list object stays, at most one fresh cell appears. -/
+def ListStep {ι : Type} (l : AList ι) (s : Ledger) (r : AList ι × Bool) (s' : Ledger) : Prop :=
+  r.1.hdr = l.hdr ∧ (s.hits < s'.hits → r.2 = false) ∧
+  ((r.2 = false ∧ r.1 = l ∧ Clean s s' [] []) ∨
+   (r.2 = true ∧ ∃ c, Clean s s' [] [c] ∧ List.Perm (r.1.cells.map (·.1)) (c :: l.cells.map (·.1))))
+
+theorem listAppend_spec {ι : Type} (l : AList ι) (item : ι) (s : Ledger) (wf : s.WF) (hl : l.hdr ∈ s.live) :
+    Good (listAppend l item) s (fun r s' =>
+      r.1.hdr = l.hdr ∧ (s.hits < s'.hits → r.2 = false) ∧
+      ((r.2 = false ∧ r.1 = l ∧ Clean s s' [] []) ∨
+       (r.2 = true ∧ ∃ c, r.1.cells = l.cells ++ [(c, item)] ∧ Clean s s' [] [c]))) := by
+  unfold listAppend
+  simp only [bind_eq, pure_eq]
+  refine Good.bind (deref_spec l.hdr s hl) ?_
+  intro _ s0 e0; subst e0
+  refine Good.bind (malloc_spec s0 wf) ?_
+  intro c s1 ⟨c1, h1⟩
+  cases c with
+  | none =>
+    simp only [good_ret]
+    exact ⟨by simp, by simp, Or.inl ⟨by simp, by simp, by simpa using c1⟩⟩
+  | some c =>
+    simp only [good_ret]
+    refine ⟨by simp, ?_, Or.inr ⟨by simp, c, by simp, by simpa using c1⟩⟩
+    intro hh; have := h1 hh; simp at this
+
+theorem listInsert_spec {ι : Type} (l : AList ι) (item : ι) (pos : Nat) (s : Ledger) (wf : s.WF) (hl : l.hdr ∈ s.live) :
+    Good (listInsert l item pos) s (ListStep l s) := by
+  unfold listInsert
+  simp only [bind_eq, pure_eq]
+  refine Good.bind (malloc_spec s wf) ?_
+  intro c s1 ⟨c1, h1⟩
+  cases c with
+  | none =>
+    simp only [good_ret]
+    exact ⟨rfl, by simp, Or.inl ⟨rfl, rfl, by simpa using c1⟩⟩
+  | some c =>
+    simp only
+    have hl1 : l.hdr ∈ s1.live := (c1.live _).2 (Or.inl ⟨hl, by simp⟩)
+    refine Good.bind (deref_spec l.hdr s1 hl1) ?_
+    intro _ s2 e2; subst e2
+    simp only [good_ret]
+    refine ⟨rfl, ?_, Or.inr ⟨rfl, c, by simpa using c1, ?_⟩⟩
+    · intro hh; have := h1 hh; simp at this
+    · simp only [List.map_append, List.map_cons, List.map_nil, List.append_assoc, List.singleton_append]
+      have : l.cells.map (·.1) = (l.cells.take pos).map (·.1) ++ (l.cells.drop pos).map (·.1) := by
+        rw [← List.map_append, List.take_append_drop]
+      rw [this]
+      exact List.perm_middle
+
+theorem listExtractFirst_spec {ι : Type} (l : AList ι) (s : Ledger) (wf : s.WF) (hl : l.hdr ∈ s.live)
+    (hc : ∀ c ∈ l.cells.map (·.1), c ∈ s.live) :
+    Good (listExtractFirst l) s (fun r s' =>
+      r.1.hdr = l.hdr ∧ s'.hits = s.hits ∧ s'.next = s.next ∧
+      match l.cells with
+      | [] => r = (l, none) ∧ s' = s
+      | (c, it) :: rest => r.2 = some it ∧ r.1.cells = rest ∧ Clean s s' [c] []) := by
+  unfold listExtractFirst
+  simp only [bind_eq, pure_eq]
+  refine Good.bind (deref_spec l.hdr s hl) ?_
+  intro _ s0 e0; subst e0
+  cases hcells : l.cells with
+  | nil => simp [good_ret]
+  | cons x rest =>
+    obtain ⟨c, it⟩ := x
+    simp only
+    have hcl : c ∈ s0.live := hc c (by simp [hcells])
+    refine Good.bind (deref_spec c s0 hcl) ?_
+    intro _ s1 e1; subst e1
+    refine Good.bind (free_spec (some c) s1 wf (by intro a ha; cases ha; exact hcl)) ?_
+    intro _ s2 ⟨c2, h2, n2⟩
+    simp only [good_ret]
+    exact ⟨by simp, h2, n2, by simp, by simp, by simpa using c2⟩
+
+/-- Blocks of a chain of cells, given what each item owns. -/
+def cellsOwned {ι : Type} (oi : ι → List Nat) (cells : List (Nat × ι)) : List Nat :=
+  cells.flatMap (fun c => c.1 :: oi c.2)
+
+theorem cellsOwned_append {ι : Type} (oi : ι → List Nat) (A B : List (Nat × ι)) :
+    cellsOwned oi (A ++ B) = cellsOwned oi A ++ cellsOwned oi B := by
+  simp [cellsOwned, List.flatMap_append]
+
+/-- What a destructor must do: release exactly the item's blocks, allocate nothing. -/
+def Destroys {ι : Type} (oi : ι → List Nat) (d : ι → Prog Unit) : Prop :=
+  ∀ it s, s.WF → Owns s (oi it) →
+    Good (d it) s (fun _ s' => Clean s s' (oi it) [] ∧ s'.hits = s.hits ∧ s'.next = s.next)
+
+theorem cellsDestroy_spec {ι : Type} (oi : ι → List Nat) (d : ι → Prog Unit) (hd : Destroys oi d)
+    (cells : List (Nat × ι)) (s : Ledger) (wf : s.WF) (own : Owns s (cellsOwned oi cells)) :
+    Good (cellsDestroy cells d) s (fun _ s' =>
+      Clean s s' (cellsOwned oi cells) [] ∧ s'.hits = s.hits ∧ s'.next = s.next) := by
+  induction cells generalizing s with
+  | nil => simp only [cellsDestroy, pure_eq, good_ret, cellsOwned, List.flatMap_nil]; exact ⟨Clean.rfl wf, by simp, by simp⟩
+  | cons x rest ih =>
+    obtain ⟨c, it⟩ := x
+    simp only [cellsOwned, List.flatMap_cons, List.cons_append] at own ⊢
+    obtain ⟨hcl, hcn, own'⟩ := Owns.cons_iff.1 own
+    obtain ⟨ownIt, ownRest, disj⟩ := Owns.append_iff.1 own'
+    unfold cellsDestroy
+    simp only [bind_eq]
+    refine Good.bind (deref_spec c s hcl) ?_
+    intro _ s0 e0; subst e0
+    refine Good.bind (hd it s0 wf ownIt) ?_
+    intro _ s1 ⟨c1, h1, n1⟩
+    have hc1 : c ∈ s1.live := (c1.live c).2 (Or.inl ⟨hcl, fun hm => hcn (List.mem_append_left _ hm)⟩)
+    refine Good.bind (free_spec (some c) s1 c1.wf (by intro a ha; cases ha; exact hc1)) ?_
+    intro _ s2 ⟨c2, h2, n2⟩
+    have ownRest2 : Owns s2 (cellsOwned oi rest) := by
+      refine c2.keeps (c1.keeps ownRest ?_) ?_
+      · intro i hi hm; exact disj i hm hi
+      · intro i hi hm
+        simp only [Option.toList, List.mem_singleton] at hm
+        subst hm; exact hcn (List.mem_append_right _ hi)
+    refine (ih s2 c2.wf ownRest2).mono ?_
+    intro _ s3 ⟨c3, h3, n3⟩
+    expose c1; expose c2; expose c3
+    refine ⟨⟨?_, by simp, by simp, by simp_all, by omega, by omega, c3.wf⟩, by omega, by omega⟩
+    intro i
+    simp only [Option.toList, List.mem_cons, List.mem_append, cellsOwned] at *
+    grind
+
+/-- Blocks of a (possibly NULL) list. -/
+def listOwned {ι : Type} (oi : ι → List Nat) : Option (AList ι) → List Nat
+  | none => []
+  | some l => l.hdr :: cellsOwned oi l.cells
+
+theorem listDestroy_spec {ι : Type} (oi : ι → List Nat) (d : ι → Prog Unit) (hd : Destroys oi d)
+    (l : Option (AList ι)) (s : Ledger) (wf : s.WF) (own : Owns s (listOwned oi l)) :
+    Good (listDestroy l d) s (fun _ s' =>
+      Clean s s' (listOwned oi l) [] ∧ s'.hits = s.hits ∧ s'.next = s.next) := by
+  cases l with
+  | none => simp only [listDestroy, pure_eq, good_ret, listOwned]; exact ⟨Clean.rfl wf, by simp, by simp⟩
+  | some l =>
+    simp only [listOwned] at own ⊢
+    obtain ⟨hl, hn, ownC⟩ := Owns.cons_iff.1 own
+    unfold listDestroy
+    simp only [bind_eq]
+    refine Good.bind (deref_spec l.hdr s hl) ?_
+    intro _ s0 e0; subst e0
+    refine Good.bind (cellsDestroy_spec oi d hd l.cells s0 wf ownC) ?_
+    intro _ s1 ⟨c1, h1, n1⟩
+    have hl1 : l.hdr ∈ s1.live := (c1.live _).2 (Or.inl ⟨hl, hn⟩)
+    refine (free_spec (some l.hdr) s1 c1.wf (by intro a ha; cases ha; exact hl1)).mono ?_
+    intro _ s2 ⟨c2, h2, n2⟩
+    expose c1; expose c2
+    refine ⟨⟨?_, by simp, by simp, by simp_all, by omega, by omega, c2.wf⟩, by omega, by omega⟩
+    intro i
+    simp only [Option.toList, List.mem_cons] at *
+    grind
+
+/-! ### Tags / attribute names -/
+
+theorem nameDestroy_spec (t : Option AName) (s : Ledger) (wf : s.WF) (own : Owns s (ownedNameOpt t)) :
+    Good (nameDestroy t) s (fun _ s' => Clean s s' (ownedNameOpt t) [] ∧ s'.hits = s.hits ∧ s'.next = s.next) := by
+  cases t with
+  | none => simp only [nameDestroy, pure_eq, good_ret, ownedNameOpt]; exact ⟨Clean.rfl wf, by simp, by simp⟩
+  | some t =>
+    simp only [ownedNameOpt, AName.owned] at own ⊢
+    obtain ⟨hl, hn, own'⟩ := Owns.cons_iff.1 own
+    unfold nameDestroy
+    simp only [bind_eq]
+    refine Good.bind (deref_spec t.hdr s hl) ?_
+    intro _ s0 e0; subst e0
+    cases hv : t.v with
+    | token r =>
+      simp only [hv] at hn own' ⊢
+      refine (free_spec (some t.hdr) s0 wf (by intro a ha; cases ha; exact hl)).mono ?_
+      intro _ s1 ⟨c1, h1, n1⟩
+      exact ⟨by simpa using c1, h1, n1⟩
+    | literal b =>
+      simp only [hv] at hn own' ⊢
+      refine Good.bind (bufDestroy_spec b s0 wf own') ?_
+      intro _ s1 ⟨c1, h1, n1⟩
+      have hl1 : t.hdr ∈ s1.live := (c1.live _).2 (Or.inl ⟨hl, hn⟩)
+      refine (free_spec (some t.hdr) s1 c1.wf (by intro a ha; cases ha; exact hl1)).mono ?_
+      intro _ s2 ⟨c2, h2, n2⟩
+      expose c1; expose c2
+      refine ⟨⟨?_, by simp, by simp, by simp_all, by omega, by omega, c2.wf⟩, by omega, by omega⟩
+      intro i
+      simp only [Option.toList, List.mem_cons] at *
+      grind
+
+theorem nameCreateToken_spec (row : Nat) (s : Ledger) (wf : s.WF) :
+    Good (nameCreateToken row) s (fun r s' => Clean s s' [] (ownedNameOpt r) ∧ (s.hits < s'.hits → r = none)) := by
+  unfold nameCreateToken
+  simp only [bind_eq, pure_eq]
+  refine Good.bind (malloc_spec s wf) ?_
+  intro h s1 ⟨c1, h1⟩
+  cases h with
+  | none => simp only [good_ret, ownedNameOpt]; exact ⟨c1, by simp⟩
+  | some h =>
+    simp only [good_ret, ownedNameOpt, AName.owned]
+    refine ⟨by simpa using c1, ?_⟩
+    intro hh; have := h1 hh; simp at this
+
+theorem nameCreateLiteral_spec (value : Option Bytes) (s : Ledger) (wf : s.WF) :
+    Good (nameCreateLiteral value) s (fun r s' => Clean s s' [] (ownedNameOpt r) ∧ (s.hits < s'.hits → r = none)) := by
+  unfold nameCreateLiteral
+  simp only [bind_eq, pure_eq]
+  refine Good.bind (malloc_spec s wf) ?_
+  intro h s1 ⟨c1, h1⟩
+  cases h with
+  | none => simp only [good_ret, ownedNameOpt]; exact ⟨c1, by simp⟩
+  | some h =>
+    have hh1 : ¬ s.hits < s1.hits := by intro hh; have := h1 hh; simp at this
+    cases value with
+    | none =>
+      simp only [good_ret, ownedNameOpt, AName.owned, ownedBufOpt]
+      exact ⟨by simpa using c1, fun hh => (hh1 hh).elim⟩
+    | some v =>
+      simp only
+      refine Good.bind (bufCreate_spec (some v) v.length s1 c1.wf) ?_
+      intro b s2 ⟨c2, h2, _, _⟩
+      have hl2 : h ∈ s2.live := (c2.live h).2 (Or.inl ⟨(c1.live h).2 (Or.inr (by simp)), by simp⟩)
+      cases b with
+      | none =>
+        simp only
+        refine Good.bind (nameDestroy_spec (some ⟨h, .literal none⟩) s2 c2.wf ?_) ?_
+        · simp only [ownedNameOpt, AName.owned, ownedBufOpt, List.append_nil]
+          exact Owns.cons_iff.2 ⟨hl2, by simp, Owns.nil _⟩
+        · intro _ s3 ⟨c3, h3, n3⟩
+          simp only [good_ret, ownedNameOpt]
+          expose c1; expose c2; expose c3
+          refine ⟨⟨?_, by simp, by simp, by simp_all, by omega, by omega, c3.wf⟩, by simp⟩
+          intro i
+          have := wf i
+          simp only [ownedNameOpt, AName.owned, ownedBufOpt, Option.toList, List.mem_cons, List.append_nil] at *
+          grind
+      | some b =>
+        simp only [good_ret, ownedNameOpt, AName.owned]
+        expose c1; expose c2
+        simp only [ownedBufOpt, Option.toList] at *
+        refine ⟨⟨?_, ?_, ?_, by simp_all, by omega, by omega, c2.wf⟩, ?_⟩
+        · intro i; grind
+        · intro i hi; grind
+        · grind
+        · intro hh; have a2 := h2; simp at a2; omega
+
+theorem nameDuplicate_spec (t : Option AName) (s : Ledger) (wf : s.WF) (own : Owns s (ownedNameOpt t)) :
+    Good (nameDuplicate t) s (fun r s' =>
+      Clean s s' [] (ownedNameOpt r) ∧ (s.hits < s'.hits → r = none) ∧ (t = none → r = none ∧ s'.hits = s.hits)) := by
+  cases t with
+  | none => simp only [nameDuplicate, pure_eq, good_ret, ownedNameOpt]; exact ⟨Clean.rfl wf, by simp, by simp⟩
+  | some t =>
+    simp only [ownedNameOpt, AName.owned] at own
+    obtain ⟨hl, hn, own'⟩ := Owns.cons_iff.1 own
+    unfold nameDuplicate
+    simp only [bind_eq, pure_eq]
+    refine Good.bind (deref_spec t.hdr s hl) ?_
+    intro _ s0 e0; subst e0
+    refine Good.bind (malloc_spec s0 wf) ?_
+    intro h s1 ⟨c1, h1⟩
+    cases h with
+    | none => simp only [good_ret, ownedNameOpt]; exact ⟨c1, by simp, by simp⟩
+    | some h =>
+      have hh1 : ¬ s0.hits < s1.hits := by intro hh; have := h1 hh; simp at this
+      cases hv : t.v with
+      | token r =>
+        simp only [good_ret, ownedNameOpt, AName.owned]
+        exact ⟨by simpa using c1, fun hh => (hh1 hh).elim, by simp⟩
+      | literal b =>
+        simp only [hv] at own' ⊢
+        have hb1 : ∀ x, b = some x → x.hdr ∈ s1.live := by
+          intro x hx; subst hx
+          refine (c1.live _).2 (Or.inl ⟨own'.2 _ (by simp [ownedBufOpt, ABuf.owned]), by simp⟩)
+        refine Good.bind (bufDuplicate_spec b s1 c1.wf hb1) ?_
+        intro b' s2 ⟨c2, h2, _, hnone⟩
+        have hl2 : h ∈ s2.live := (c2.live h).2 (Or.inl ⟨(c1.live h).2 (Or.inr (by simp)), by simp⟩)
+        by_cases hcond : (b'.isNone && b.isSome) = true
+        · simp only [hcond, if_true]
+          refine Good.bind (free_spec (some h) s2 c2.wf (by intro a ha; cases ha; exact hl2)) ?_
+          intro _ s3 ⟨c3, h3, n3⟩
+          simp only [good_ret, ownedNameOpt]
+          have hb' : b' = none := by cases b' <;> simp_all
+          subst hb'
+          expose c1; expose c2; expose c3
+          refine ⟨⟨?_, by simp, by simp, by simp_all, by omega, by omega, c3.wf⟩, by simp, by simp⟩
+          intro i
+          have := wf i
+          simp only [ownedBufOpt, Option.toList, List.mem_cons] at *
+          grind
+        · simp only [hcond, Bool.false_eq_true, if_false, good_ret, ownedNameOpt, AName.owned]
+          expose c1; expose c2
+          simp only [Option.toList] at *
+          refine ⟨⟨?_, ?_, ?_, by simp_all, by omega, by omega, c2.wf⟩, ?_, by simp⟩
+          · intro i; grind
+          · intro i hi; grind
+          · grind
+          · intro hh
+            cases b with
+            | none => have := (hnone rfl).2; omega
+            | some x =>
+              have a2 := h2
+              have : s1.hits < s2.hits := by omega
+              have hb' := a2 this
+              subst hb'
+              simp at hcond
+
+/-! ### Attributes -/
+
+theorem attrCreate_spec (s : Ledger) (wf : s.WF) :
+    Good attrCreate s (fun r s' => Clean s s' [] (ownedAttrOpt r) ∧ (s.hits < s'.hits → r = none) ∧
+      (∀ a, r = some a → a.name = none ∧ a.value = none)) := by
+  unfold attrCreate
+  simp only [bind_eq, pure_eq]
+  refine Good.bind (malloc_spec s wf) ?_
+  intro h s1 ⟨c1, h1⟩
+  cases h with
+  | none => simp only [good_ret, ownedAttrOpt]; exact ⟨c1, by simp, by simp⟩
+  | some h =>
+    simp only [good_ret, ownedAttrOpt, AAttr.owned, ownedNameOpt, ownedBufOpt]
+    refine ⟨by simpa using c1, ?_, by simp⟩
+    intro hh; have := h1 hh; simp at this
+
+theorem attrDestroy_spec (a : Option AAttr) (s : Ledger) (wf : s.WF) (own : Owns s (ownedAttrOpt a)) :
+    Good (attrDestroy a) s (fun _ s' => Clean s s' (ownedAttrOpt a) [] ∧ s'.hits = s.hits ∧ s'.next = s.next) := by
+  cases a with
+  | none => simp only [attrDestroy, pure_eq, good_ret, ownedAttrOpt]; exact ⟨Clean.rfl wf, by simp, by simp⟩
+  | some a =>
+    simp only [ownedAttrOpt, AAttr.owned] at own ⊢
+    obtain ⟨hl, hn, own'⟩ := Owns.cons_iff.1 own
+    obtain ⟨ownN, ownV, disj⟩ := Owns.append_iff.1 own'
+    unfold attrDestroy
+    simp only [bind_eq]
+    refine Good.bind (deref_spec a.hdr s hl) ?_
+    intro _ s0 e0; subst e0
+    refine Good.bind (nameDestroy_spec a.name s0 wf ownN) ?_
+    intro _ s1 ⟨c1, h1, n1⟩
+    have ownV1 : Owns s1 (ownedBufOpt a.value) := c1.keeps ownV (fun i hi hm => disj i hm hi)
+    refine Good.bind (bufDestroy_spec a.value s1 c1.wf ownV1) ?_
+    intro _ s2 ⟨c2, h2, n2⟩
+    have hl2 : a.hdr ∈ s2.live := by
+      refine (c2.live _).2 (Or.inl ⟨(c1.live _).2 (Or.inl ⟨hl, fun hm => hn (List.mem_append_left _ hm)⟩), fun hm => hn (List.mem_append_right _ hm)⟩)
+    refine (free_spec (some a.hdr) s2 c2.wf (by intro x hx; cases hx; exact hl2)).mono ?_
+    intro _ s3 ⟨c3, h3, n3⟩
+    expose c1; expose c2; expose c3
+    refine ⟨⟨?_, by simp, by simp, by simp_all, by omega, by omega, c3.wf⟩, by omega, by omega⟩
+    intro i
+    simp only [Option.toList, List.mem_cons, List.mem_append] at *
+    grind
+
+theorem attr_destroys : Destroys AAttr.owned (fun a => attrDestroy (some a)) := by
+  intro a s wf own
+  exact attrDestroy_spec (some a) s wf own
+
+theorem buf_destroys : Destroys ABuf.owned (fun b => bufDestroy (some b)) := by
+  intro b s wf own
+  exact bufDestroy_spec (some b) s wf own
+
+theorem attrDuplicate_spec (a : Option AAttr) (s : Ledger) (wf : s.WF) (own : Owns s (ownedAttrOpt a)) :
+    Good (attrDuplicate a) s (fun r s' =>
+      Clean s s' [] (ownedAttrOpt r) ∧ (s.hits < s'.hits → r = none) ∧ (a = none → r = none)) := by
+  cases a with
+  | none => simp only [attrDuplicate, pure_eq, good_ret, ownedAttrOpt]; exact ⟨Clean.rfl wf, by simp, by simp⟩
+  | some a =>
+    simp only [ownedAttrOpt, AAttr.owned] at own
+    obtain ⟨hl, hn, own'⟩ := Owns.cons_iff.1 own
+    obtain ⟨ownN, ownV, disj⟩ := Owns.append_iff.1 own'
+    unfold attrDuplicate
+    simp only [bind_eq, pure_eq]
+    refine Good.bind (deref_spec a.hdr s hl) ?_
+    intro _ s0 e0; subst e0
+    refine Good.bind (malloc_spec s0 wf) ?_
+    intro h s1 ⟨c1, h1⟩
+    cases h with
+    | none => simp only [good_ret, ownedAttrOpt]; exact ⟨c1, by simp, by simp⟩
+    | some h =>
+      have hh1 : ¬ s0.hits < s1.hits := by intro hh; have := h1 hh; simp at this
+      simp only
+      have ownN1 : Owns s1 (ownedNameOpt a.name) := c1.keeps ownN (by simp)
+      refine Good.bind (nameDuplicate_spec a.name s1 c1.wf ownN1) ?_
+      intro n s2 ⟨c2, h2, hn2⟩
+      have hv2 : ∀ x, a.value = some x → x.hdr ∈ s2.live := by
+        intro x hx
+        have : x.hdr ∈ s0.live := ownV.2 _ (by simp [hx, ownedBufOpt, ABuf.owned])
+        exact (c2.live _).2 (Or.inl ⟨(c1.live _).2 (Or.inl ⟨this, by simp⟩), by simp⟩)
+      refine Good.bind (bufDuplicate_spec a.value s2 c2.wf hv2) ?_
+      intro v s3 ⟨c3, h3, _, hv3⟩
+      have hl1 : h ∈ s1.live := (c1.live h).2 (Or.inr (by simp))
+      have hl3 : h ∈ s3.live := (c3.live h).2 (Or.inl ⟨(c2.live h).2 (Or.inl ⟨hl1, by simp⟩), by simp⟩)
+      have hfh : s0.next < h ∧ h ≤ s1.next := by have := c1.fresh h (by simp); simpa using this
+      have dNV : ∀ i ∈ ownedNameOpt n, i ∉ ownedBufOpt v := c2.disjoint_later c3
+      have hhN : h ∉ ownedNameOpt n := by
+        intro hm; have := c2.fresh h hm; simp at this; omega
+      have hhV : h ∉ ownedBufOpt v := by
+        intro hm; have := c3.fresh h hm; have := c2.next; simp at *; omega
+      have ownNew : Owns s3 (h :: (ownedNameOpt n ++ ownedBufOpt v)) := by
+        refine Owns.cons_iff.2 ⟨hl3, ?_, Owns.append_iff.2 ⟨c3.keeps c2.owns (by simp), c3.owns, dNV⟩⟩
+        intro hm; rcases List.mem_append.1 hm with hm | hm
+        · exact hhN hm
+        · exact hhV hm
+      by_cases hcond : ((n.isNone && a.name.isSome) || (v.isNone && a.value.isSome)) = true
+      · simp only [hcond, if_true]
+        refine Good.bind (attrDestroy_spec (some ⟨h, n, v⟩) s3 c3.wf (by simpa [ownedAttrOpt, AAttr.owned] using ownNew)) ?_
+        intro _ s4 ⟨c4, h4, n4⟩
+        simp only [good_ret, ownedAttrOpt]
+        expose c1; expose c2; expose c3; expose c4
+        refine ⟨⟨?_, by simp, by simp, by simp_all, by omega, by omega, c4.wf⟩, by simp, by simp⟩
+        intro i
+        have := wf i
+        simp only [ownedAttrOpt, AAttr.owned, Option.toList, List.mem_cons, List.mem_append] at *
+        grind
+      · simp only [hcond, Bool.false_eq_true, if_false, good_ret, ownedAttrOpt, AAttr.owned]
+        expose c1; expose c2; expose c3
+        refine ⟨⟨?_, ?_, ownNew.1, by simp_all, by omega, by omega, c3.wf⟩, ?_, by simp⟩
+        · intro i
+          have := wf i
+          simp only [Option.toList, List.mem_cons, List.mem_append] at *
+          grind
+        · intro i hi
+          simp only [Option.toList, List.mem_cons, List.mem_append] at *
+          grind
+        · intro hh
+          exfalso
+          apply hcond
+          -- a delivered failure happened in one of the two copies
+          have hs1 : s1.hits = s0.hits := by omega
+          by_cases hA : s1.hits < s2.hits
+          · have hnn := h2 hA
+            cases hname : a.name with
+            | none => have := (hn2 hname).2; omega
+            | some x => simp [hnn]
+          · have hB : s2.hits < s3.hits := by omega
+            have hvn := h3 hB
+            cases hval : a.value with
+            | none => have := (hv3 hval).2; omega
+            | some x => simp [hvn]
+
+/-! ### Tree nodes -/
+
+abbrev attrsOwned (l : Option (AList AAttr)) : List Nat := listOwned AAttr.owned l
+
+theorem ANode.owned_eq (n : ANode) :
+    n.owned = n.hdr :: (ownedNameOpt n.name ++ attrsOwned n.attrs ++ ownedBufOpt n.content) := by
+  cases h : n.attrs <;> simp [ANode.owned, attrsOwned, listOwned, h, AList.owned, cellsOwned]
+
+theorem nodeCreate_spec (s : Ledger) (wf : s.WF) :
+    Good nodeCreate s (fun r s' => Clean s s' [] (match r with | none => [] | some n => n.owned) ∧
+      (s.hits < s'.hits → r = none)) := by
+  unfold nodeCreate
+  simp only [bind_eq, pure_eq]
+  refine Good.bind (malloc_spec s wf) ?_
+  intro h s1 ⟨c1, h1⟩
+  cases h with
+  | none => simp only [good_ret]; exact ⟨c1, by simp⟩
+  | some h =>
+    simp only [good_ret, ANode.owned, ownedNameOpt, ownedBufOpt]
+    refine ⟨by simpa using c1, ?_⟩
+    intro hh; have := h1 hh; simp at this
+
+theorem nodeDestroy_spec (n : Option ANode) (s : Ledger) (wf : s.WF)
+    (own : Owns s (match n with | none => [] | some n => n.owned)) :
+    Good (nodeDestroy n) s (fun _ s' =>
+      Clean s s' (match n with | none => [] | some n => n.owned) [] ∧ s'.hits = s.hits ∧ s'.next = s.next) := by
+  cases n with
+  | none => simp only [nodeDestroy, pure_eq, good_ret]; exact ⟨Clean.rfl wf, by simp, by simp⟩
+  | some n =>
+    simp only [ANode.owned_eq] at own ⊢
+    obtain ⟨hl, hn, own'⟩ := Owns.cons_iff.1 own
+    obtain ⟨ownNA, ownC, disjC⟩ := Owns.append_iff.1 own'
+    obtain ⟨ownN, ownA, disjA⟩ := Owns.append_iff.1 ownNA
+    unfold nodeDestroy
+    simp only [bind_eq]
+    refine Good.bind (deref_spec n.hdr s hl) ?_
+    intro _ s0 e0; subst e0
+    refine Good.bind (nameDestroy_spec n.name s0 wf ownN) ?_
+    intro _ s1 ⟨c1, h1, n1⟩
+    have ownA1 : Owns s1 (attrsOwned n.attrs) := c1.keeps ownA (fun i hi hm => disjA i hm hi)
+    refine Good.bind (listDestroy_spec AAttr.owned _ attr_destroys n.attrs s1 c1.wf ownA1) ?_
+    intro _ s2 ⟨c2, h2, n2⟩
+    have c2' : Clean s1 s2 (attrsOwned n.attrs) [] := c2
+    have ownC2 : Owns s2 (ownedBufOpt n.content) := by
+      refine c2'.keeps (c1.keeps ownC ?_) ?_
+      · intro i hi hm; exact disjC i (List.mem_append_left _ hm) hi
+      · intro i hi hm; exact disjC i (List.mem_append_right _ hm) hi
+    refine Good.bind (bufDestroy_spec n.content s2 c2.wf ownC2) ?_
+    intro _ s3 ⟨c3, h3, n3⟩
+    have hl3 : n.hdr ∈ s3.live := by
+      have a1 : n.hdr ∈ s1.live := (c1.live _).2 (Or.inl ⟨hl, fun hm => hn (List.mem_append_left _ (List.mem_append_left _ hm))⟩)
+      have a2 : n.hdr ∈ s2.live := (c2'.live _).2 (Or.inl ⟨a1, fun hm => hn (List.mem_append_left _ (List.mem_append_right _ hm))⟩)
+      exact (c3.live _).2 (Or.inl ⟨a2, fun hm => hn (List.mem_append_right _ hm)⟩)
+    refine (free_spec (some n.hdr) s3 c3.wf (by intro x hx; cases hx; exact hl3)).mono ?_
+    intro _ s4 ⟨c4, h4, n4⟩
+    have := c1.live; have := c2'.live; have := c3.live; have := c4.live
+    have := c1.sched; have := c2'.sched; have := c3.sched; have := c4.sched
+    have := c1.next; have := c2'.next; have := c3.next; have := c4.next
+    have := c1.hits; have := c2'.hits; have := c3.hits; have := c4.hits
+    refine ⟨⟨?_, by simp, by simp, by simp_all, by omega, by omega, c4.wf⟩, by omega, by omega⟩
+    intro i
+    simp only [Option.toList, List.mem_cons, List.mem_append] at *
+    grind
+
+/-- The shape of `wbxml_tree_node_add_attr`: same node struct, more owned blocks. -/
+theorem nodeAddAttr_spec (n : ANode) (attr : AAttr) (s : Ledger) (wf : s.WF) (own : Owns s n.owned)
+    (ownA : Owns s attr.owned) :
+    Good (nodeAddAttr n attr) s (fun r s' =>
+      r.1.hdr = n.hdr ∧ Clean s s' n.owned r.1.owned ∧ (s.hits < s'.hits → r.2 = ENOMEM)) := by
+  have hl : n.hdr ∈ s.live := own.2 _ (by simp [ANode.owned])
+  unfold nodeAddAttr
+  simp only [bind_eq, pure_eq]
+  refine Good.bind (deref_spec n.hdr s hl) ?_
+  intro _ s0 e0; subst e0
+  -- the list, existing or created now
+  have hstep : Good (match n.attrs with | some l => Prog.ret (some l) | none => listCreate) s0 (fun l s1 =>
+      (∃ P, Clean s0 s1 [] P ∧ (∀ x, l = some x → attrsOwned (some x) = P ++ attrsOwned n.attrs) ∧ (l = none → P = [])) ∧
+      (s0.hits < s1.hits → l = none)) := by
+    cases h : n.attrs with
+    | some l => simp only [good_ret]; exact ⟨⟨[], Clean.rfl wf, by simp, by simp⟩, by simp⟩
+    | none =>
+      refine (listCreate_spec (ι := AAttr) s0 wf).mono ?_
+      intro r s1 ⟨c1, h1, e1⟩
+      refine ⟨⟨_, c1, ?_, ?_⟩, h1⟩
+      · intro x hx; subst hx; simp [attrsOwned, listOwned, e1 x rfl, cellsOwned]
+      · intro hx; subst hx; rfl
+  refine Good.bind hstep ?_
+  intro l s1 ⟨⟨P, c1, eP, eN⟩, h1⟩
+  cases l with
+  | none =>
+    simp only [good_ret]
+    have := eN rfl; subst this
+    refine ⟨by simp, ⟨?_, fun i hi => Or.inl hi, own.1, c1.sched, c1.next, c1.hits, c1.wf⟩, by simp⟩
+    intro i; have := c1.live i; have := own.2 i; grind
+  | some l =>
+    simp only
+    have ownA1 : Owns s1 attr.owned := c1.keeps ownA (by simp)
+    refine Good.bind (attrDuplicate_spec (some attr) s1 c1.wf (by simpa [ownedAttrOpt] using ownA1)) ?_
+    intro c s2 ⟨c2, h2, _⟩
+    have hPdisj : ∀ i ∈ P, i ∉ n.owned := by
+      intro i hi hm
+      exact c1.fresh_not_live wf i hi (own.2 i hm)
+    have own1 : Owns s1 n.owned := c1.keeps own (by simp)
+    -- owned blocks of the node with the list installed
+    have eOwn1 : ∀ i, i ∈ ({ n with attrs := some l } : ANode).owned ↔ i ∈ n.owned ∨ i ∈ P := by
+      intro i
+      simp only [ANode.owned_eq, eP l rfl, List.mem_cons, List.mem_append]
+      grind
+    have nd1 : ({ n with attrs := some l } : ANode).owned.Nodup := by
+      simp only [ANode.owned_eq, eP l rfl] at *
+      have hn := own.1
+      have hP := c1.nodup
+      simp only [List.nodup_cons, List.nodup_append, List.mem_append, List.mem_cons] at *
+      grind
+    cases c with
+    | none =>
+      simp only [good_ret]
+      expose c1; expose c2
+      refine ⟨by simp, ⟨?_, ?_, nd1, by simp_all, by omega, by omega, c2.wf⟩, by simp⟩
+      · intro i; have := own.2 i; have := eOwn1 i; have := hPdisj i; simp only [ownedAttrOpt] at *; grind
+      · intro i hi; have := eOwn1 i; simp only [ownedAttrOpt] at *; grind
+    | some c =>
+      simp only
+      have hl2 : l.hdr ∈ s2.live := by
+        have : l.hdr ∈ attrsOwned (some l) := by simp [attrsOwned, listOwned]
+        rw [eP l rfl] at this
+        rcases List.mem_append.1 this with hm | hm
+        · exact (c2.live _).2 (Or.inl ⟨(c1.live _).2 (Or.inr hm), by simp⟩)
+        · have : l.hdr ∈ n.owned := by simp only [ANode.owned_eq, List.mem_cons, List.mem_append]; grind
+          exact (c2.live _).2 (Or.inl ⟨(c1.live _).2 (Or.inl ⟨own.2 _ this, by simp⟩), by simp⟩)
+      refine Good.bind (listAppend_spec l c s2 c2.wf hl2) ?_
+      intro r s3 ⟨e3, h3, hcase⟩
+      obtain ⟨l2, ok⟩ := r
+      simp only at e3 h3 hcase ⊢
+      rcases hcase with ⟨hok, hl2', c3⟩ | ⟨hok, cid, hcells, c3⟩
+      · subst hok
+        simp only [Bool.not_false, if_true]
+        have ownC3 : Owns s3 c.owned := c3.keeps (by simpa [ownedAttrOpt] using c2.owns) (by simp)
+        refine Good.bind (attrDestroy_spec (some c) s3 c3.wf (by simpa [ownedAttrOpt] using ownC3)) ?_
+        intro _ s4 ⟨c4, h4, n4⟩
+        simp only [good_ret]
+        expose c1; expose c2; expose c3; expose c4
+        refine ⟨by simp, ⟨?_, ?_, nd1, by simp_all, by omega, by omega, c4.wf⟩, by simp⟩
+        · intro i; have := own.2 i; have := eOwn1 i; have := hPdisj i
+          have := wf i
+          simp only [ownedAttrOpt] at *; grind
+        · intro i hi; have := eOwn1 i; simp only [ownedAttrOpt] at *; grind
+      · subst hok
+        simp only [Bool.not_true, Bool.false_eq_true, if_false, good_ret]
+        -- the node now owns the list with one more cell holding the copy
+        have eOwn2 : ∀ i, i ∈ ({ n with attrs := some l2 } : ANode).owned ↔
+            i ∈ ({ n with attrs := some l } : ANode).owned ∨ i = cid ∨ i ∈ c.owned := by
+          intro i
+          simp only [ANode.owned_eq, listOwned, e3, hcells, cellsOwned_append, List.mem_cons, List.mem_append]
+          simp only [cellsOwned, List.flatMap_cons, List.flatMap_nil, List.append_nil, List.mem_cons]
+          grind
+        have hfc : ∀ i ∈ c.owned, s1.next < i ∧ i ≤ s2.next := by
+          intro i hi; have := c2.fresh i (by simpa [ownedAttrOpt] using hi); simpa using this
+        have hfcid : s2.next < cid ∧ cid ≤ s3.next := by have := c3.fresh cid (by simp); simpa using this
+        have hold : ∀ i ∈ ({ n with attrs := some l } : ANode).owned, i ≤ s1.next := by
           intro i hi
-          have := wf i hi
-          omega
-        · simp only [h2]
-          simp [run, LiveEq, Fresh, ownedBufOpt, ABuf.owned]
+          rcases (eOwn1 i).1 hi with hm | hm
+          · have := wf i (own.2 i hm); have := c1.next; omega
+          · have := c1.fresh i hm; simp at this; omega
+        have nd2 : ({ n with attrs := some l2 } : ANode).owned.Nodup := by
+          have hcn := c2.nodup
+          simp only [ownedAttrOpt] at hcn
+          simp only [ANode.owned_eq, listOwned, e3, hcells, cellsOwned_append] at nd1 hold ⊢
+          simp only [cellsOwned, List.flatMap_cons, List.flatMap_nil, List.append_nil] at nd1 hold ⊢
+          simp only [List.nodup_cons, List.nodup_append, List.mem_append, List.mem_cons] at nd1 hold ⊢
+          have := c1.next; have := c2.next
+          grind
+        expose c1; expose c2; expose c3
+        refine ⟨by simp, ⟨?_, ?_, nd2, by simp_all, by omega, by omega, c3.wf⟩, ?_⟩
+        · intro i; have := own.2 i; have := eOwn1 i; have := eOwn2 i; have := hPdisj i
+          have := wf i
+          simp only [ownedAttrOpt, List.mem_singleton] at *; grind
+        · intro i hi; have := eOwn1 i; have := eOwn2 i; have := hfc i
+          simp only [ownedAttrOpt, List.mem_singleton] at *; grind
+        · intro hh
+          exfalso
+          have a1 := h1; have a2 := h2; have a3 := h3
+          simp at a1 a2 a3
           omega
 
 end Wbxml.Model.Alloc
